@@ -404,6 +404,56 @@ var p0to = dSchema{"main", []dTable{
 	{name: "t5", cols: []dCol{{"c1", 2, false}}, idx: []dIdx{}}, // only drops: column c2 and index j1
 }}
 
+func randTable(r *rng.R, name string) dTable {
+	names := []string{"a", "b", "c", "d"}
+	t := dTable{name: name}
+	for _, c := range names {
+		if r.Chance(2, 3) || len(t.cols) == 0 && c == "d" {
+			t.cols = append(t.cols, dCol{c, 2 + r.Intn(2), r.Bool()})
+		}
+	}
+	col := func() string { return t.cols[r.Intn(len(t.cols))].name }
+	if r.Chance(2, 3) {
+		pk := &dIdx{name: ""} // named PKs: Diff/DiffSqlite.v (read-only here) models SupportChange(RenameConstraint) = true, sqlite says false
+		pk.parts = append(pk.parts, dPart{t.cols[0].name, false})
+		if r.Chance(1, 4) && len(t.cols) > 1 {
+			pk.parts = append(pk.parts, dPart{t.cols[1].name, false})
+		}
+		t.pk = pk
+	}
+	for _, n := range []string{"i1", "i2", "i3"} {
+		if r.Chance(1, 2) {
+			ix := dIdx{n, r.Chance(1, 3), []dPart{{col(), r.Chance(1, 4)}}}
+			t.idx = append(t.idx, ix)
+		}
+	}
+	for _, n := range []string{"f1", "f2"} {
+		if r.Chance(1, 2) {
+			t.fks = append(t.fks, dFk{n, []string{col()}, rng.Pick(r, []string{"p", "q"}), []string{"id"}, rng.Pick(r, []string{"", "CASCADE", "SET NULL"})})
+		}
+	}
+	for _, n := range []string{"k1", "k2"} {
+		if r.Chance(1, 3) {
+			t.checks = append(t.checks, dCheck{n, rng.Pick(r, []string{"a > 0", "b > 0", "(a > 0)"})})
+		}
+	}
+	return t
+}
+
+// a random pair of schemas "main" over tables t1..t3
+func randPair(r *rng.R) (from, to dSchema) {
+	from.name, to.name = "main", "main"
+	for _, tn := range []string{"t1", "t2", "t3"} {
+		if r.Chance(3, 4) {
+			from.tables = append(from.tables, randTable(r, tn))
+		}
+		if r.Chance(3, 4) {
+			to.tables = append(to.tables, randTable(r, tn))
+		}
+	}
+	return
+}
+
 func runSkip(w *out.W, tier string) {
 	w.Rule = "non-trivial = the skip list removed at least one change from the unfiltered change set; keyed by (dialect, unfiltered change set, K)"
 	gen, err := readSkipKinds()
@@ -453,52 +503,8 @@ func runSkip(w *out.W, tier string) {
 	if tier == "thorough" {
 		cnt = 40000
 	}
-	names := []string{"a", "b", "c", "d"}
-	randTable := func(name string) dTable {
-		t := dTable{name: name}
-		for _, c := range names {
-			if r.Chance(2, 3) || len(t.cols) == 0 && c == "d" {
-				t.cols = append(t.cols, dCol{c, 2 + r.Intn(2), r.Bool()})
-			}
-		}
-		col := func() string { return t.cols[r.Intn(len(t.cols))].name }
-		if r.Chance(2, 3) {
-			pk := &dIdx{name: ""} // named PKs: Diff/DiffSqlite.v (read-only here) models SupportChange(RenameConstraint) = true, sqlite says false
-			pk.parts = append(pk.parts, dPart{t.cols[0].name, false})
-			if r.Chance(1, 4) && len(t.cols) > 1 {
-				pk.parts = append(pk.parts, dPart{t.cols[1].name, false})
-			}
-			t.pk = pk
-		}
-		for _, n := range []string{"i1", "i2", "i3"} {
-			if r.Chance(1, 2) {
-				ix := dIdx{n, r.Chance(1, 3), []dPart{{col(), r.Chance(1, 4)}}}
-				t.idx = append(t.idx, ix)
-			}
-		}
-		for _, n := range []string{"f1", "f2"} {
-			if r.Chance(1, 2) {
-				t.fks = append(t.fks, dFk{n, []string{col()}, rng.Pick(r, []string{"p", "q"}), []string{"id"}, rng.Pick(r, []string{"", "CASCADE", "SET NULL"})})
-			}
-		}
-		for _, n := range []string{"k1", "k2"} {
-			if r.Chance(1, 3) {
-				t.checks = append(t.checks, dCheck{n, rng.Pick(r, []string{"a > 0", "b > 0", "(a > 0)"})})
-			}
-		}
-		return t
-	}
 	for i := 0; i < cnt; i++ {
-		var from, to dSchema
-		from.name, to.name = "main", "main"
-		for _, tn := range []string{"t1", "t2", "t3"} {
-			if r.Chance(3, 4) {
-				from.tables = append(from.tables, randTable(tn))
-			}
-			if r.Chance(3, 4) {
-				to.tables = append(to.tables, randTable(tn))
-			}
-		}
+		from, to := randPair(r)
 		var K []string
 		used := map[string]bool{}
 		for k := r.Intn(5); k > 0; k-- {
